@@ -121,7 +121,6 @@ func cmdDump(args []string) {
 	fmt.Printf("solve time %.1fs\n", time.Since(t0).Seconds())
 }
 
-
 // cmdReach: own-package functions reachable from the named roots through static calls and all
 // implementations of invoked interface methods (used to write the entry list of the frame property)
 func cmdReach(args []string) {
